@@ -30,7 +30,7 @@ theorem C12_key_length (line : Bytes) (dt : Int) (prec : String) (p : Point)
     p.key.length ≤ MaxKeyLength ∧
     ∀ f ∈ iterFields (p.fields.length + 1) p.fields, p.key.length + 4 + f.key.length ≤ MaxKeyLength := by
   obtain ⟨_, _, _, _, hl, _, _, hw, _⟩ := parsePoint_ok_inv line dt prec p h
-  exact ⟨hl, walkFieldsCheck_bound _ _ _ hw⟩
+  exact ⟨hl, fun f hf => (walkFieldsCheck_bound _ _ _ hw f hf).1⟩
 
 /-- the timestamp is representable: inside [MinNanoTime, MaxNanoTime] (for a line without a
     timestamp: when the default time is at least an hour inside that range) -/
